@@ -96,4 +96,33 @@ def step (st : St) : Event → St
 
 def run (st : St) (es : List Event) : St := es.foldl step st
 
+/-! EmitEvent / consumeEvent: the watchers hand events to the manager through a bounded channel;
+`EmitEvent` is a blocking send (not enabled while the channel is full — it never drops),
+`consumeEvent` receives the oldest event and runs `processEvent` on it. `emitted` is a ghost
+field: every event ever handed to `EmitEvent`, in order. -/
+structure QSt where
+  st : St
+  queue : List Event
+  emitted : List Event
+
+def QSt.init : QSt := { st := St.init, queue := [], emitted := [] }
+
+inductive QAction
+  | emit (e : Event)
+  | consume
+
+/-- one atomic step; `none` = the action is not enabled (send on a full channel blocks,
+receive on an empty channel blocks) -/
+def qstep (cap : Nat) (q : QSt) : QAction → Option QSt
+  | .emit e => if q.queue.length < cap then
+      some { q with queue := q.queue ++ [e], emitted := q.emitted ++ [e] } else none
+  | .consume =>
+    match q.queue with
+    | [] => none
+    | e :: t => some { q with st := step q.st e, queue := t }
+
+/-- runs a schedule, skipping actions that are not enabled -/
+def qrun (cap : Nat) (q : QSt) (as : List QAction) : QSt :=
+  as.foldl (fun q a => (qstep cap q a).getD q) q
+
 end LinVerif.Master
